@@ -47,6 +47,7 @@ partial def parseTree : List String → Option (Option St × List String)
       | [] => none
       | [t] => some t
       | _ => some (.mux (Mux.make subs)), rest')
+  | "C" :: rest => parseTree rest          -- a clone is the same stream
   | "F" :: rest => do
     let (e, r1) ← parseTree rest
     let (x, r2) ← parseTree r1
@@ -63,7 +64,7 @@ def runStream (args : List String) : String :=
   let (treeToks, script) := (args.takeWhile (· ≠ "#"), (args.dropWhile (· ≠ "#")).drop 1)
   match parseTree treeToks with
   | some (st, []) =>
-    let script := (String.join script).toList
+    let script := (String.join script).toList.filter (· != 'c')     -- `c`: go on with a clone, the same stream
     match st with
     | none => joinWith " " (script.map fun _ => "-")    -- NULL stream: the harness answers nul
     | some st =>
